@@ -471,3 +471,91 @@ M('c14-asgi-pipe-marks-iteration-started', 'C14', 'R19', A,
   "        async for chunk in self._iter_with_buffer():\n            if destination is not None:",
   "        self._iteration_started = True\n        async for chunk in self._iter_with_buffer():\n            if destination is not None:")
 # negative controls verified by hand with --root (silent): see fixer report (wave 9)
+
+# ---------------------------------------------------- "refactoring + break" (second preserving wave): the behaviour-preserving extraction of
+# k2-c14-2 (the search across the chunk border of the synchronous _read_until becomes the read-only value helper
+# self._find_on_boundary(delimiter, delimiter_len_1, next_chunk) -> match position in BUFFER coordinates or -1; the caller passes
+# `delimiter_pos` on) is read through by R6 / R10 (the helper is executed in place) -- plus a real mistake in the helper or at the call
+_K2_HELPER_AT = "    def _read_until(\n        self, delimiter: bytes, size: int, consume_delimiter: bool\n    ) -> bytes:\n"
+_K2_INLINE = ("                offset = max(self._buffer_len - delimiter_len_1, self._buffer_pos)\n"
+              "                fragment = self._buffer[offset:] + next_chunk[:delimiter_len_1]\n"
+              "                delimiter_pos = fragment.find(delimiter)\n")
+_K2_CALL = "                delimiter_pos = self._find_on_boundary(\n                    delimiter, delimiter_len_1, next_chunk\n                )\n"
+_K2_PASS = "                        delimiter,\n                        delimiter_pos + offset,\n                    )"
+_K2_HELPER = ("    def _find_on_boundary(\n        self, delimiter: bytes, delimiter_len_1: int, next_chunk: bytes\n    ) -> int:\n"
+              "        offset = max(self._buffer_len - delimiter_len_1, self._buffer_pos)\n"
+              "        fragment = self._buffer[offset:] + next_chunk[:delimiter_len_1]\n"
+              "        fragment_pos = fragment.find(delimiter)\n"
+              "        if fragment_pos < 0:\n            return -1\n"
+              "        return fragment_pos + offset\n\n")
+
+
+def _k2_boundary_helper(helper=_K2_HELPER, call=_K2_CALL, passed="                        delimiter,\n                        delimiter_pos,\n                    )"):
+    return [{'file': S, 'old': _K2_HELPER_AT, 'new': helper + _K2_HELPER_AT},
+            {'file': S, 'old': _K2_INLINE, 'new': call},
+            {'file': S, 'old': _K2_PASS, 'new': passed}]
+
+
+# the helper hands back the position inside the FRAGMENT while the caller no longer adds the offset
+M2('c14-k2-boundary-helper-returns-relative-position', 'C14', 'R6',
+   _k2_boundary_helper(helper=_K2_HELPER.replace("        return fragment_pos + offset\n", "        return fragment_pos\n")), also=('C13',))
+# ... the offset is added twice (by the helper and by the caller)
+M2('c14-k2-boundary-helper-offset-added-twice', 'C14', 'R6',
+   _k2_boundary_helper(call="                offset = max(self._buffer_len - delimiter_len_1, self._buffer_pos)\n" + _K2_CALL,
+                       passed="                        delimiter,\n                        delimiter_pos + offset,\n                    )"), also=('C13',))
+# the extracted search looks one byte short into the next chunk
+M2('c14-k2-boundary-helper-lookahead-one-short', 'C14', 'R10',
+   _k2_boundary_helper(helper=_K2_HELPER.replace("next_chunk[:delimiter_len_1]", "next_chunk[: delimiter_len_1 - 1]")), also=('C13',))
+# the extracted search starts in front of the cursor
+M2('c14-k2-boundary-helper-searches-consumed-bytes', 'C14', 'R6',
+   _k2_boundary_helper(helper=_K2_HELPER.replace("max(self._buffer_len - delimiter_len_1, self._buffer_pos)", "max(self._buffer_len - delimiter_len_1, 0)")), also=('C13',))
+# a match at fragment position 0 is reported as "not found"
+M2('c14-k2-boundary-helper-match-at-zero-is-not-found', 'C14', 'R10',
+   _k2_boundary_helper(helper=_K2_HELPER.replace("        if fragment_pos < 0:\n", "        if fragment_pos <= 0:\n")), also=('C13',))
+# the asynchronous twin: the border search of _iter_delimited extracted into a synchronous helper that looks one byte short (R11) /
+# whose relative result is stored as the cursor without the offset (R8)
+_K2_A_INLINE = "                fragment = self._buffer[offset:] + chunk[:delimiter_len_1]\n                pos = fragment.find(delimiter)\n"
+_K2_A_CALL = "                pos = self._find_on_border(delimiter, delimiter_len_1, offset, chunk)\n"
+_K2_A_AT = "    async def _iter_delimited(\n"
+_K2_A_HELPER = ("    def _find_on_border(self, delimiter, delimiter_len_1, offset, chunk):\n"
+                "        fragment = self._buffer[offset:] + chunk[:delimiter_len_1]\n        return fragment.find(delimiter)\n\n")
+M2('c14-k2-async-border-helper-lookahead-one-short', 'C14', 'R11',
+   [{'file': A, 'old': _K2_A_INLINE, 'new': _K2_A_CALL},
+    {'file': A, 'old': _K2_A_AT, 'new': _K2_A_HELPER.replace("chunk[:delimiter_len_1]", "chunk[: delimiter_len_1 - 1]") + _K2_A_AT}], also=('C13',))
+M2('c14-k2-async-border-helper-cursor-without-offset', 'C14', 'R8',
+   [{'file': A, 'old': _K2_A_INLINE, 'new': _K2_A_CALL},
+    {'file': A, 'old': _K2_A_AT, 'new': _K2_A_HELPER + _K2_A_AT},
+    {'file': A, 'old': "                    self._buffer_pos = offset + pos\n", 'new': "                    self._buffer_pos = pos\n"}], also=('C13',))
+
+# k2-c14-4: `delimit(delimiter, *, chunk_size=None)` -- an optional keyword no caller passes is its default (R14 evaluates the
+# argument under "parameter omitted") -- plus: the default wins over the parent's size / the parameter is handed on as it is
+_K2_DELIMIT = "    def delimit(self, delimiter: bytes) -> BufferedReader:\n        read = functools.partial(self.read_until, delimiter)\n"
+_K2_DELIMIT_KW = ("    def delimit(\n        self, delimiter: bytes, *, chunk_size: Optional[int] = None\n    ) -> BufferedReader:\n"
+                  "        read = functools.partial(self.read_until, delimiter)\n")
+M2('c14-k2-delimit-optional-chunk-size-handed-on-as-none', 'C14', 'R14',
+   [{'file': S, 'old': _K2_DELIMIT, 'new': _K2_DELIMIT_KW},
+    {'file': S, 'old': _SUB, 'new': "        return type(self)(read, self._normalize_size(None), chunk_size)\n"}])
+M2('c14-k2-delimit-optional-chunk-size-falls-back-to-default', 'C14', 'R14',
+   [{'file': S, 'old': _K2_DELIMIT, 'new': _K2_DELIMIT_KW},
+    {'file': S, 'old': _SUB, 'new': "        return type(self)(\n            read, self._normalize_size(None), chunk_size if chunk_size is not None else DEFAULT_CHUNK_SIZE\n        )\n"}])
+M2('c14-k2-async-delimit-optional-chunk-size-or-default', 'C14', 'R14',
+   [{'file': A, 'old': "    def delimit(self, delimiter: bytes) -> BufferedReader:  # TODO: should se self\n",
+     'new': "    def delimit(\n        self, delimiter: bytes, *, chunk_size: Optional[int] = None\n    ) -> BufferedReader:\n"},
+    {'file': A, 'old': "return type(self)(self._iter_delimited(delimiter), chunk_size=self._chunk_size)",
+     'new': "return type(self)(self._iter_delimited(delimiter), chunk_size=chunk_size or DEFAULT_CHUNK_SIZE)"}])
+
+# a bound method of the reader hoisted into a local (`finalize = self._finalize_read_until`; read as the method itself by every rule:
+# Reader normalises the alias away) -- plus a real mistake at one of the aliased calls / in the aliased helper
+_K2_ALIAS = [{'file': S, 'old': "return self._finalize_read_until(", 'new': "return finalize(", 'count': 5},
+             {'file': S, 'old': "        while True:\n            if self._buffer_len > self._buffer_pos:\n                delimiter_pos = self._buffer.find(",
+              'new': "        finalize = self._finalize_read_until\n        while True:\n            if self._buffer_len > self._buffer_pos:\n"
+                     "                delimiter_pos = self._buffer.find("}]
+M2('c14-k2-finalize-alias-wrong-chunk-len-argument', 'C14', 'R1',
+   _K2_ALIAS + [{'file': S, 'old': "                    next_chunk_len=next_chunk_len,\n", 'new': "                    next_chunk_len=self._chunk_size,\n"}], also=('C13',))
+M2('c14-k2-finalize-alias-consume-count-one-short', 'C14', None,
+   _K2_ALIAS + [{'file': S, 'old': "consume_bytes = (delimiter_len_1 + 1) if consume_delimiter else 0", 'new': "consume_bytes = delimiter_len_1 if consume_delimiter else 0"}],
+   also=('C13',))
+M2('c14-k2-boundary-helper-alias-lookahead-one-short', 'C14', 'R10',
+   _k2_boundary_helper(helper=_K2_HELPER.replace("next_chunk[:delimiter_len_1]", "next_chunk[: delimiter_len_1 - 1]"),
+                       call="                find_on_boundary = self._find_on_boundary\n                delimiter_pos = find_on_boundary(\n"
+                            "                    delimiter, delimiter_len_1, next_chunk\n                )\n"), also=('C13',))
